@@ -43,6 +43,22 @@ impl V9 {
 //@   generics: <'nom>
 //@   rules: R9b
 //@   ensures: v9_packet_post(*old(parser), *final(parser), orig_i, r)
+//@   ensures: r is Ok ==> is_suffix(r->Ok_0.0@, orig_i@)
+//@   before "let i = orig_i;": proof {
+//@       if orig_i@.len() >= 18 {
+//@           let body = orig_i@.subrange(18, orig_i@.len() as int);
+//@           lemma_flowsets_suffix(*parser, body, v9_header_dec(orig_i@, 0).count as int);
+//@           assert(is_suffix(body, orig_i@));
+//@           let res = flowsets_spec(*parser, body, v9_header_dec(orig_i@, 0).count as int).0;
+//@           if res is Some { lemma_suffix_trans(res->Some_0.1, body, orig_i@); }
+//@       }
+//@   }
+//@ end
+//@ fn expanded variable_versions::v9 /impl<'nom> V9/ parse
+//@   result: r
+//@   generics: <'nom>
+//@   ensures: v9_packet_post(*old(parser), *final(parser), orig_i, r)
+//@   ensures: r is Ok ==> is_suffix(r->Ok_0.0@, orig_i@)
 //@ end
 }
 } // verus!
